@@ -62,6 +62,7 @@ function encArr(x) {
 }
 function mk(a) {
   if (a === null) return undefined;
+  if (a.t === 'iface') { if (a.nil) return get('$ifaceNil'); return a.comparable ? new (get('$Int'))(5) : new (get('$sliceType')(get('$Int')))([1]); }
   if (a.t === 'chan') { if (a.nil) return get('$chanNil'); const c = new (get('$Chan'))(get('$Int'), 0); c.$closed = a.closed; return c; }
   if (a.t === 'arrv') return mkArr(a, a.kind);
   if (a.t === 'elemtype') { return (a.kind === 25 || a.kind === 17) ? elemType(a.kind, true) : {kind: a.kind}; }
@@ -131,6 +132,9 @@ class JSReplayer:
             return {'t': ty, 'h': self.conc_num(m, v.fields['$high']), 'l': self.conc_num(m, v.fields['$low'])}
         if ty == 'arr':
             return self.conc_arr(m, v, 0)
+        if ty == 'iface':
+            return {'t': 'iface', 'nil': bool(z3.is_true(m.eval(v.fields['$nil'], model_completion=True))),
+                    'comparable': bool(z3.is_true(m.eval(z3.Function('fld_comparable', I, B)(v.fields['constructor'].ref), model_completion=True)))}
         if ty == 'chan':
             return {'t': 'chan', 'nil': bool(z3.is_true(m.eval(v.fields['$nil'], model_completion=True))), 'closed': bool(z3.is_true(m.eval(v.fields['$closed'], model_completion=True)))}
         if ty == 'elemtype':
@@ -177,6 +181,11 @@ class JSReplayer:
         t = enc['t'] if isinstance(enc, dict) else None
         if t in ('arr', 'arrv'): return self.lift_arr(st, enc)
         if t == 'elemtype': return JSObj({'kind': z3.IntVal(enc['kind'])}, ctor='Type')
+        if t == 'iface':
+            from .jsexec import JSDesc
+            d = JSDesc(z3.IntVal(7))
+            self.desc_facts = [z3.Function('fld_comparable', I, B)(z3.IntVal(7)) == z3.BoolVal(bool(enc['comparable']))]
+            return JSObj({'$nil': z3.BoolVal(bool(enc['nil'])), 'constructor': d, '$val': z3.IntVal(0)}, ctor='Box')
         if t == 'chan': return JSObj({'$nil': z3.BoolVal(bool(enc['nil'])), '$closed': z3.BoolVal(bool(enc['closed']))}, ctor='Chan')
         if t == 'slice':
             return JSObj({'$array': self.lift_arr(st, enc['arr']), '$offset': z3.IntVal(enc['off']), '$length': z3.IntVal(enc['len']), '$capacity': z3.IntVal(enc['cap']),
@@ -210,6 +219,7 @@ class JSReplayer:
 
     def decide(self, e):
         s = z3.Solver(); s.set('timeout', 5000); s.add(z3.Not(e))
+        for f in getattr(self, 'desc_facts', []): s.add(f)
         if getattr(self, 'elem_facts', None) and 'isclone' in self.ex.spec.pures and 'cloneOf' in self.ex.spec.pures:
             # concrete meaning of isclone / cloneOf: an element object the call created (identity handed out by the harness)
             # whose content is the content of an input element
@@ -289,6 +299,8 @@ class JSReplayer:
                 must = True if any(v is True for v in vals) else (False if all(v is False for v in vals) else None)
                 if must is not None and must != threw:
                     res['violated_clauses'].append('throws_if: contract says %s, real code %s' % ('throw' if must else 'no throw', 'threw ' + out.get('threw', '') if threw else 'returned'))
+                elif must and threw and not str(out.get('threw', '')).startswith('GVCRT:'):
+                    res['violated_clauses'].append('throws_if: the contract asks for a run-time error ($throwRuntimeError), the real code threw a JavaScript exception: ' + str(out.get('threw', ''))[:200])
             elif threw:
                 res['violated_clauses'].append('unexpected throw: ' + out.get('threw', ''))
             if not threw:
